@@ -92,26 +92,80 @@ def decimalOf (q : Rat) : Option (Nat × Int) :=
     let (c, z) := stripZeros (m + 1) m 0
     some (c, (z : Int) - (k : Int))
 
-/-- a float on which double arithmetic and `repr` are exact: dyadic, at most 15 significant digits -/
-def niceRat (q : Rat) : Bool :=
-  q = 0 ||
-  ((pow2Exp (q.den + 1) q.den 0).isSome &&
-   (match decimalOf q with
-    | some (c, x) => (natDigits c).length ≤ 15 && decide (-300 ≤ x) && decide (x ≤ 300)
-    | none => false))
+def absR (q : Rat) : Rat := if q < 0 then -q else q
+
+/-- binary mantissa and exponent of a positive rational that IS a (normal) double:
+    `q = mant · 2^e` with `2^52 ≤ mant < 2^53` -/
+def binaryOf (q : Rat) : Option (Nat × Int) :=
+  if q ≤ 0 then none else
+  match pow2Exp (q.den + 1) q.den 0 with
+  | none => none
+  | some j =>
+    let k : Int := (Nat.log2 q.num.natAbs : Int) - (j : Int)          -- floor(log2 q)
+    if k < -1022 ∨ k > 1023 then none else
+    let e := k - 52
+    let mr : Rat := q / (2 : Rat) ^ e
+    if mr.den = 1 then some (mr.num.toNat, e) else none
+
+/-- a float that double arithmetic represents exactly -/
+def exactRat (q : Rat) : Bool := q = 0 || (binaryOf (absR q)).isSome
+
+def pow10R (e : Int) : Rat := (10 : Rat) ^ e
+
+/-- `floor(log10 q)` for `q > 0` -/
+def log10Floor (q : Rat) : Int :=
+  let est : Int := ((natDigits q.num.natAbs).length : Int) - ((natDigits q.den).length : Int)
+  if pow10R est ≤ q then est else est - 1
+
+/-- David Gay's shortest round-trip digits (what `repr(float)` prints) of the positive double `q = mant · 2^e`:
+    the shortest decimal inside the rounding interval of `q`, the closest one among those; `(c, x)` = `c · 10^x` -/
+def shortestLoop (q lo hi : Rat) (incl : Bool) (E : Int) : Nat → Nat → Nat × Int
+  | 0, _ => (0, 0)
+  | fuel + 1, n =>
+    let x : Int := E - (n : Int) + 1
+    let step := pow10R x
+    let dl : Rat := ((q / step).floor : Rat) * step
+    let dh := dl + step
+    let inside (d : Rat) : Bool := if incl then decide (lo ≤ d) && decide (d ≤ hi) else decide (lo < d) && decide (d < hi)
+    let pick : Option Rat :=
+      match inside dl, inside dh with
+      | true, true => some (if q - dl ≤ dh - q then dl else dh)
+      | true, false => some dl
+      | false, true => some dh
+      | false, false => none
+    match pick with
+    | some d =>
+      let c := (d / step).floor.toNat
+      let (c', z) := stripZeros (c + 1) c 0
+      (c', x + (z : Int))
+    | none => shortestLoop q lo hi incl E fuel (n + 1)
+
+def shortestDigits (q : Rat) (mant : Nat) (e : Int) : Nat × Int :=
+  let ulp := (2 : Rat) ^ e
+  let lowgap := if mant = 2 ^ 52 then ulp / 2 else ulp
+  shortestLoop q (q - lowgap / 2) (q + ulp / 2) (mant % 2 == 0) (log10Floor q) 18 1
+
+/-- the significant digits `repr(float)` prints for the double nearest to `|q|` (`q ≠ 0`): the exact expansion of
+    a decimal with at most 15 significant digits (the 15-digit round-trip guarantee), the shortest round-trip
+    digits of a rational that is a double; `none`: neither -/
+def reprDigits (q : Rat) : Option (Nat × Int) :=
+  let a := absR q
+  match decimalOf a with
+  | some (c, x) =>
+    if (natDigits c).length ≤ 15 then some (c, x)
+    else (binaryOf a).map fun me => shortestDigits a me.1 me.2
+  | none => none
 
 def floatMarker : List Char := "<float>".toList
 
-/-- `repr(float)` of the double nearest to `q`, for `q` with at most 15 significant decimal digits
-    (the shortest round-trip text is then the exact expansion) -/
+/-- `repr(float)` of the double nearest to `q` -/
 def floatRepr (q : Rat) : List Char :=
   if q = 0 then "0.0".toList else
-  match decimalOf q with
+  match reprDigits q with
   | none => floatMarker
   | some (c, x) =>
     let ds := natDigits c
     let n := ds.length
-    if n > 15 then floatMarker else
     let e : Int := x + (n : Int) - 1                      -- decimal exponent of the leading digit
     let sign := if q < 0 then ['-'] else []
     let body : List Char :=
@@ -353,11 +407,10 @@ def decOfNum : Num → Option C16.Dec
   | .int z => some ⟨decide (z < 0), z.natAbs, 0⟩
   | .flt q =>
     if q = 0 then some ⟨false, 0, -1⟩ else
-    match decimalOf q with
+    match reprDigits q with
     | none => none
     | some (c, x) =>
       let n := (natDigits c).length
-      if n > 15 then none else
       let e : Int := x + (n : Int) - 1
       if -4 ≤ e ∧ e < 16 ∧ 0 ≤ x then some ⟨decide (q < 0), c * 10 ^ (x.toNat + 1), -1⟩   -- `123.0`
       else some ⟨decide (q < 0), c, x⟩
@@ -821,10 +874,11 @@ def guardOf (sem : Sem) : Sem where
     | _, _ => sem.app id args
   truth := sem.truth
 
-/-! ## the strict run: is every float of this evaluation exact in double arithmetic? -/
+/-! ## the exactness probes: is every float of this evaluation exact in double arithmetic (strict)? if not, is
+       every step at least well-conditioned (soft)? -/
 
 def niceS : S → Bool
-  | .num (.flt q) => niceRat q
+  | .num (.flt q) => exactRat q
   | .num (.int z) => z.natAbs < 2 ^ 53          -- `float(int)` is exact
   | .date d => d.den = 1
   | _ => true
@@ -857,6 +911,55 @@ def strictOf (sem : Sem) : Sem where
          else .val v
        | r => r)
     else .raiseRuntime inexactMark
+  truth := sem.truth
+
+def magS : S → Rat
+  | .num n => absR n.toRat
+  | .date d => absR d
+  | _ => 0
+
+def maxMag : List V → Rat
+  | [] => 0
+  | .s x :: rest => max (magS x) (maxMag rest)
+  | .arr rows :: rest => max (rows.flatten.foldl (fun m x => max m (magS x)) 0) (maxMag rest)
+
+/-- functions that are continuous in their numeric arguments with a small condition number -/
+def smoothNames : List String :=
+  ["OP_ADD", "OP_SUB", "OP_MUL", "OP_DIV", "OP_NEG", "OP_PERCENT", "SUM", "AVERAGE", "ABS", "MIN", "MAX", "SUMPRODUCT",
+   "POWER", "SLN"]
+/-- … of which these add (a result much smaller than the operands is a cancellation: its rounding error is not small) -/
+def additiveNames : List String := ["OP_ADD", "OP_SUB", "SUM", "AVERAGE", "SUMPRODUCT", "SLN"]
+def compareNames : List String := ["OP_EQ", "OP_NE", "OP_LT", "OP_GT", "OP_LE", "OP_GE"]
+
+/-- the soft probe: like `strictOf`, but a float that is not a double (0.1, 1E-20, 1/3) may go through a
+    well-conditioned step — a smooth function without cancellation, a comparison whose operands are a relative
+    1e-6 apart; every other use of such a float (rounding, text conversion, truncation, a near-tie comparison …)
+    raises `inexactMark`.  An evaluation that passes is compared with a relative tolerance of 1e-9. -/
+def softOf (sem : Sem) : Sem where
+  app id args :=
+    match (strictOf sem).app id args with
+    | .raiseRuntime n =>
+      if n ≠ inexactMark then .raiseRuntime n else
+      let name := match funcAt id with | some f => String.ofList f.name | none => ""
+      let r := sem.app id args
+      if smoothNames.contains name then
+        (match r with
+         | .val (.s (.num (.flt x))) =>
+           let m := maxMag args
+           if x = 0 then (if m = 0 then r else .raiseRuntime inexactMark)
+           else if decide (absR x < (2 : Rat) ^ (-1021 : Int)) then .raiseRuntime inexactMark     -- subnormal: few bits
+           else if additiveNames.contains name && decide (absR x * 1000 < m) then .raiseRuntime inexactMark
+           else r
+         | _ => r)
+      else if compareNames.contains name then
+        (match args with
+         | [.s (.num a), .s (.num b)] =>
+           let x := a.toRat
+           let y := b.toRat
+           if decide (absR (x - y) * 1000000 > max (absR x) (absR y)) then r else .raiseRuntime inexactMark
+         | _ => r)
+      else .raiseRuntime inexactMark
+    | r => r
   truth := sem.truth
 
 /-! ## coverage -/
